@@ -438,6 +438,16 @@ theorem C08_cond_wait_cancel_exit (s : Condition.State) (t : Nat) (hp : s.cpc t 
   · simp [Condition.step]
   · simp
 
+/-- (a) in every reachable state no event of another task moves a task parked in `wait`'s or
+`acquire`'s `checkpoint_if_cancelled` (neither its condition-level nor its lock-level program
+counter). -/
+theorem C08_cond_parked_undisturbed {s s' : Condition.State} (h : Condition.Reach s) {t : Nat}
+    (hp : Cond.CParked t s) (hl : s.cpc t = .acq → Lock.Parked t s.lock)
+    {e : Condition.Ev} {o : Condition.Out} (he : Cond.actor e ≠ t)
+    (hs : Condition.step s e = some (s', o)) :
+    s'.cpc t = s.cpc t ∧ s'.lock.pc t = s.lock.pc t :=
+  Cond.other_keeps_pc hp (Cond.cparked_not_queued (Condition.inv_reach h) hp hl) he hs
+
 /-- (b) `Condition.acquire`, free lock, `fast_acquire = False`: suspends in the Lock's shielded
 yield (lock taken, `_owner_task` not yet set: the call has not returned). -/
 theorem C08_cond_acquire_yields_first (s : Condition.State) (t : Nat)
@@ -665,6 +675,13 @@ theorem C08_mem_receive_sender_waiting_returns (s : Memory.State) (t h u x : Nat
     ∃ s2, Memory.step s (.step t P) = some (s2, .item x) ∧ s2.buffer = [] ∧
       s2.waitingSenders = rest ∧ s2.pc u = Memory.wakeSender (s.pc u) ∧ s2.pc t = .idle := by
   simp [Memory.step, hp, Memory.recvCore, hopen, Memory.pullSender, hws, hb, hut]
+
+/-- (a)/(b) in every reachable state no event of another task moves a task that is inside the
+opening checkpoint of `send`/`receive` (parked with `pre`, or yielding without). -/
+theorem C08_mem_chk_undisturbed {s s' : Memory.State} (h : Memory.Reach s) {t : Nat}
+    (hp : Mem.InChk t s) {e : Memory.Ev} {o : Memory.Out} (he : Mem.actor e ≠ t)
+    (hs : Memory.step s e = some (s', o)) : s'.pc t = s.pc t :=
+  Mem.other_keeps_pc hp (Mem.inChk_not_waiting (Memory.invQ_reach h) hp) he hs
 
 /-- exemption: `send_nowait`, `receive_nowait`, `close` (= `aclose`) and `clone` are synchronous
 in every state. -/
